@@ -26,7 +26,10 @@ UNDERFLOW = 1e-15   # gradient tensors below this magnitude are in float32's squ
 # sha256 of the definitions (comments / blank lines stripped) of the two generated files the whole-step model is built
 # from, as lifted from the pinned tree.  While both match, a disagreement between `advstep.fit` and the Fraction oracle
 # is a bug of this machinery (exit 2); after a source edit that changed a lifted file it is a broken tie (exit 1).
-PINNED_GEN_SHA256 = {"AdvProjection.lean": "238c40171dee892da779fa6c615ff5483a5b83c1d1eb2a7d8dc70b3fbbd0f26c", "AdvScheduleSrc.lean": "2a6782c3963fb6a11e55dd01c69785874c9377aa8b68efd6fe5be320e2bc5775"}
+PINNED_GEN_SHA256 = {"AdvProjection.lean": "238c40171dee892da779fa6c615ff5483a5b83c1d1eb2a7d8dc70b3fbbd0f26c", "AdvScheduleSrc.lean": "2a6782c3963fb6a11e55dd01c69785874c9377aa8b68efd6fe5be320e2bc5775",
+                     "AdvTrainStepSrc.lean": "a4d0cee7e5d7d5a1a191e54fde8ce0fa553975c593e8a234a98767c39f0683ae"}
+# what `trainstep.applied` must print: buffers consistent, predictor applies combine(dLP/dW, dLA/dW), adversary applies dLA/dU
+WANT_APPLIED = "1 combine(1,0,0;0,1,0) 0,1,0"
 _GEN_STATE = {}
 
 
@@ -247,7 +250,7 @@ class CHECK(Check):
         """whole `fit` on user-supplied torch modules with plain SGD: gradients of every step are recorded by tensor
         hooks on the real autograd, the final parameters are compared with the fold of the model's step"""
         d = rng.choice([1, 2, 3])
-        n = rng.randint(3, 12)
+        n = rng.randint(4, 12)          # `_values` needs n >= number of classes (<= 4)
         ykind = rng.choice(["binary", "binary", "multiclass", "continuous"])
         skind = rng.choice(["binary", "binary", "multiclass", "continuous"])
         bs = rng.choice([-1, rng.randint(1, n), rng.randint(1, n), n + 1])
@@ -282,7 +285,7 @@ class CHECK(Check):
                     t = _target_type(kind, vals)
                     ok = ok and ((kind == "continuous" and t == "continuous") or (kind == "binary" and t == "binary" and len(set(vals)) == 2)
                                  or (kind == "multiclass" and t == "multiclass"))
-                if ok and n >= 3:
+                if ok and n >= 4 and len(c["y"]) == n and len(c["sf"]) == n:
                     yield c
                 continue
             d = rng.choice([1, 2, 2, 3, 3, 4, 5, 6])
@@ -547,7 +550,7 @@ class CHECK(Check):
         W = tl(o["W0"], [t["v"] for t in o["W0"]])
         U = tl(o["U0"], [t["v"] for t in o["U0"]])
         gs = "@".join(tl(o["W0"], g["a"]) + "#" + tl(o["W0"], g["b"]) + "#" + tl(o["U0"], g["u"]) for g in o["grads"])
-        return [f"advstep.fit {case['alpha']} {case['lr_p']} {case['lr_a']} {len(case['X'])} {case['bs']} {case['ep']} {case['mi']} {W} {U} {gs}"]
+        return ["trainstep.applied", f"advstep.fit {case['alpha']} {case['lr_p']} {case['lr_a']} {len(case['X'])} {case['bs']} {case['ep']} {case['mi']} {W} {U} {gs}"]
 
     def lines(self, case, o):
         if case.get("kind") == "fit":
@@ -567,6 +570,7 @@ class CHECK(Check):
                 if any(v == "nan" for k in ("U0", "u") for v in t[k]):
                     continue
                 ls.append(f"adv.sgd {self._mat(t['shape'], t['U0'])} {self._mat(t['shape'], t['u'])} {case['lr_a']}")
+        ls.append("trainstep.applied")
         return ls
 
     # ------------------------------------------------------------------------------------------ judging
@@ -681,6 +685,8 @@ class CHECK(Check):
                     want = self._mat(t["shape"], [proto.rat(x - lr_a * y) for x, y in zip(U0, u)])
                     if m_sgd != want:
                         probs.append(Problem("harness", f"{where}: model sgd {str(m_sgd)[:80]} vs oracle {want[:80]}"))
+        if mo is not None and len(mo) > k and mo[k] != WANT_APPLIED:
+            probs.append(model_problem(f"the statement structure lifted from train_step hands the optimisers {mo[k]}, documented {WANT_APPLIED}"))
         return probs
 
     def _judge_fit(self, case, o, mo):
@@ -732,12 +738,14 @@ class CHECK(Check):
                                          f"from the fold of the documented step (projected gradient / plain gradient, SGD) over the recorded "
                                          f"autograd gradients", rel))
                     break
-        if mo is not None and mo:
-            toks = mo[0].split(" ")
+        if mo is not None and mo and mo[0] != WANT_APPLIED:
+            probs.append(model_problem(f"the statement structure lifted from train_step hands the optimisers {mo[0]}, documented {WANT_APPLIED}"))
+        if mo is not None and len(mo) > 1:
+            toks = mo[1].split(" ")
             wantW = "|".join(self._mat(t["shape"], [proto.rat(x) for x in w]) for t, w in zip(o["W0"], W))
             wantU = "|".join(self._mat(t["shape"], [proto.rat(x) for x in u]) for t, u in zip(o["U0"], U))
             if toks != [str(want_k), wantW, wantU]:
-                probs.append(model_problem(f"advstep.fit gives {mo[0][:120]}, the fold of the documented step gives {want_k} {wantW[:60]} {wantU[:40]}"))
+                probs.append(model_problem(f"advstep.fit gives {mo[1][:120]}, the fold of the documented step gives {want_k} {wantW[:60]} {wantU[:40]}"))
         return probs
 
     def known(self, case, problem, entries):
